@@ -87,6 +87,8 @@ structure ModuleM where
   datas : List DataM := []
   code : List (List (Nat × String) × List (Op × Nat)) := []
   names : Option NamesM := none
+  /-- roots contributed by custom sections (`CustomSection::add_gc_roots`): (space, index) -/
+  roots : List (String × Nat) := []
   deriving Repr
 
 def importedCount (m : ModuleM) (k : String) : Nat :=
